@@ -60,6 +60,43 @@ CHECKS = {
             "All ordered pairs of tags (depth<=3, components 0..12) for compare_tags against the numeric key; get_tag "
             "on every ordered non-empty subset of every prefix chain; job-name split/join.",
             "Tags are dot-separated decimal integers.", "3/C33"),
+    "C09": ("model_checking", "E2", E2 + "; independent raw-SQL reader",
+            "BFS over insert/update/read/mutate-returned-row histories (single and bulk getters) on the real SqliteDatabase; "
+            "after every history every get_* is compared with raw SQL on the same connection.",
+            "<= 2 rows per table, 4 table families, depth 5-8.", "3/C09"),
+    "C10": ("model_checking", "E1", E1 + "; job life-cycle scripts interleaved",
+            "Real DefaultScheduler over fake connectors (hardware, slots, multi-location, two targets, stacked wrappers): all "
+            "interleavings of 2-3 jobs' engine-emitted life cycles x overlap deviations; after EVERY allocation the reference "
+            "usage recomputed from job_allocations fits the capacity at every level.",
+            "Requirements without bind mounts; <= 3 jobs.", "3/C10"),
+    "C11": ("model_checking", "E1", E1 + "; job life-cycle scripts interleaved",
+            "Same space as C10; reserved cores/memory/storage never negative, no notification raises, zero after all jobs are terminal "
+            "(storage keeps the measured usage).",
+            "As C10.", "3/C11"),
+    "C12": ("model_checking", "E1", E1 + "; job life-cycle scripts interleaved",
+            "Same space with retry_interval None (no timer can mask a lost wake-up): at final quiescence no schedule() request waits "
+            "while a target has enough free capacity.",
+            "As C10.", "3/C12"),
+    "C13": ("exploration", "E3", E3,
+            "Every declared order of 1..4 targets x 9 filter chains x job inputs x busy deployments on the real scheduler; "
+            "allocation target == first surviving hostable target.",
+            "FIFO task start (documented asyncio behaviour).", "3/C13"),
+    "C21": ("model_checking", "E2", E2,
+            "BFS over register/invalidate/relate/source-lookup histories on the real DefaultDataManager (two deployments + a "
+            "wrapped location with a mount) against a history-derived reference; four registry defects probed separately.",
+            "Alphabet restrictions r1-r3 (see check) keep the BFS off the recorded defects; <= 1 relation per history.", "3/C21"),
+    "C26": ("model_checking", "E1", E1 + "; request multisets in all orders",
+            "Real DefaultDeploymentManager/FutureConnector over instrumented fakes: topologies single/pair/chain/fork, lazy and "
+            "eager, injected deploy failures; every multiset of 2..4 requests in all orders and overlaps; oracle replays the "
+            "per-instance call log against the five clauses of the property.",
+            "Fake connectors; <= 4 requests, <= 3 deployments.", "3/C26"),
+    "C28": ("exploration", "E3", E3,
+            "All sets of <= 3 step and <= 2 port bindings over the 15 paths of depth <= 3, queried for all 31 paths of depth <= 4; "
+            "all 64 wraps assignments x workdir placements incl. cycles.",
+            "Paths over {a,b}; 3 deployments.", "3/C28"),
+    "C32": ("exploration", "E3", E3,
+            "All old/new directory pairs x 10 hostile name classes x 5 value forms x nesting; round trip and containment.",
+            "posixpath processor.", "3/C32"),
     "C15": ("model_checking", "E1", E1,
             "Programs with concurrently scheduled jobs under every schedule within the bound; every JobToken's three "
             "directories exist, are registered in the data manager, and are disjoint across jobs unless fixed.",
